@@ -39,7 +39,7 @@ class SimLock(object):
                 else int(timeout * 1e6)
             if not sim.block(lambda: self.owner is None, to, reason='lock'):
                 return False
-        self.owner = sim.current
+        self.owner = sim.current or 'set-up'
         return True
 
     def release(self):
@@ -303,11 +303,27 @@ class SimTimeModule(object):
 
     EPOCH = 1600000000.0
 
+    def _wall_us(self):
+        # the wall clock (unlike the monotonic ones) may be stepped by the
+        # administrator or NTP between any two readings: `sim.wall_jumps` is
+        # a list of [reading number, step in microseconds]
+        sim = self._sim
+        k = getattr(sim, 'wall_reads', 0)
+        sim.wall_reads = k + 1
+        for at, step in getattr(sim, 'wall_jumps', None) or ():
+            if at == k:
+                sim.wall_offset_us = getattr(sim, 'wall_offset_us', 0) + step
+                sim.stats['fault.clock-jump'] = \
+                    sim.stats.get('fault.clock-jump', 0) + 1
+                sim.log('clock-jump', step)
+        return int(self.EPOCH * 1e6) + sim.now + \
+            getattr(sim, 'wall_offset_us', 0)
+
     def time(self):
-        return self.EPOCH + self._sim.now / 1e6
+        return self._wall_us() / 1e6
 
     def time_ns(self):
-        return int(self.EPOCH * 1e9) + self._sim.now * 1000
+        return self._wall_us() * 1000
 
     def monotonic(self):
         return self._sim.now / 1e6
